@@ -67,3 +67,8 @@ CORPUS += [
     M("fan-flag-precomputed", C, "        self._parse_capabilities(payload)\n\n    @property\n    def raw_capabilities", "        self._parse_capabilities(payload)\n        self._has_fan = any(k.startswith(\"fan_\") for k in self._capabilities)\n\n    @property\n    def raw_capabilities",
       also=[(C, "        if any(k.startswith(\"fan_\") for k in self._capabilities):", "        if self._has_fan:")]),
 ]
+CORPUS += [
+    M("response-with-other-id-returned", D, "            if response.id == response_id:\n                return response", "            if response.id != response_id:\n                return response"),
+    M("capability-loop-stops-at-empty-record", C, "            if size == 0:\n                caps = caps[3:]\n                continue", "            if size == 0:\n                caps = caps[3:]\n                break"),
+    M("additional-page-not-awaited", D, "            additional_response = await self._send_command_get_response_with_id(cmd, ResponseId.CAPABILITIES)", "            additional_response = self._send_command_get_response_with_id(cmd, ResponseId.CAPABILITIES)"),
+]
